@@ -24,6 +24,7 @@ macro_rules! dispatch {
             "C12" => $f(worlds::window::WindowWorld, $($arg),*),
             "C20" => $f(worlds::store::StoreWorld, $($arg),*),
             "C07" => $f(worlds::agenda::AgendaWorld, $($arg),*),
+            "C06" => $f(worlds::rete::ReteWorld, $($arg),*),
             other => {
                 eprintln!("no simulation world serves property {other}");
                 2
